@@ -31,6 +31,20 @@ def cases(tier, rng, extended=False):
         yield Case(f"factor_sweep auto {lo} {lo + step}", k=False, tag="sweep", timeout=600)
     for alg, hi in (("ecm128", 1 << 17), ("ecm", 1 << 14), ("rho", 1 << 18), ("squfof", 1 << 16)):
         yield Case(f"factor_sweep {alg} 0 {hi if quick else hi * 8}", k=False, tag="sweep", timeout=900)
+    # every row of the ECM128 curve table / every band of the automatic strategy, on the inputs that are hardest for the
+    # group-order methods (balanced semiprimes): a row whose curve budget is too small makes Auto give up on a small
+    # fraction (~1%) of one band only, so each band gets hundreds of inputs
+    per_band = (250 if quick else 1500) * (4 if extended else 1)
+    for bits in (50, 52, 56, 60, 64, 66, 68, 70, 72, 76, 80):
+        for _ in range(per_band):
+            p = gen.rand_prime(rng, bits // 2)
+            q = gen.rand_prime(rng, bits - bits // 2)
+            yield Case(f"factor {p * q} auto", k=False, tag=f"band{bits}|{min(p, q)},{max(p, q)}", profiles=["release"])
+    for bits in (84, 88, 96, 104, 112, 120, 128):
+        for _ in range(per_band // 10):
+            p = gen.rand_prime(rng, bits // 2)
+            q = gen.rand_prime(rng, bits - bits // 2)
+            yield Case(f"factor {p * q} auto", k=False, tag=f"band{bits}|{min(p, q)},{max(p, q)}", profiles=["release"])
     # sieves inside their working range (tiny inputs crash: findings under C03)
     count = 140 if quick else 1500
     maxbits = 128 if quick else 200
